@@ -15,7 +15,10 @@
 (*    nothing else looks at its expiry: it is viewed without it);           *)
 (*  - circuit keys are interchangeable unless an AMP invoice is present     *)
 (*    (AMP set membership names circuits; then only the members of s1 are   *)
-(*    interchangeable): the HTLC table is viewed as a bag of records.       *)
+(*    interchangeable): the HTLC table is viewed as a bag of records;       *)
+(*  - a recorded blinded-path HTLC is viewed as an MPP HTLC: no action and   *)
+(*    no invariant distinguishes the two once recorded (HasTot, SetOf);      *)
+(*  - kp (the circuit-key pattern) is read by no action: left out.           *)
 EXTENDS InvoiceRegistry
 CONSTANT MaxEvents          \* bound on the length of the event sequences (0 = unbounded: full closure)
 VARIABLE nev
@@ -23,7 +26,8 @@ VARIABLE nev
 MarginOK(c) == IF htlc[c] = NoHtlc THEN 0
                ELSE IF htlc[c].exp - htlc[c].ah - Need(htlc[c].k) < 0 THEN -1 ELSE 0
 Age(c) == IF c \in timer THEN now - htlc[c].at ELSE 0
-Rec(c) == [r |-> [htlc[c] EXCEPT !.exp = MarginOK(c), !.ah = 0, !.at = Age(c)],
+Rec(c) == [r |-> [htlc[c] EXCEPT !.exp = MarginOK(c), !.ah = 0, !.at = Age(c),
+                                   !.pl = IF @ = "blinded" THEN "mpp" ELSE @],
            s |-> c \in sub, t |-> c \in timer,
            c |-> IF ~HasKind("amp") THEN 0 ELSE IF c \in Members("s1") THEN 1 ELSE c]
 Bag == {<<x, Cardinality({c \in C : Rec(c) = x})>> : x \in {Rec(c) : c \in C}}
